@@ -550,8 +550,23 @@ def order_violation(case, text):
     if text.startswith("!") or not text:
         return None
     calls = all_calls(case)
-    if any(c[0] in ("update", "into") for c in calls):
-        return None    # UPDATE / INSERT statements: other clause sets; covered by the extracted table
+    if any(c[0] == "into" for c in calls):
+        return None    # INSERT statements: covered by the extracted table only
+    if any(c[0] == "update" for c in calls):
+        # UPDATE t [JOIN ..] SET .. [FROM ..] [WHERE ..] [LIMIT n]   (ClickHouse writes ALTER TABLE .. UPDATE: skipped)
+        t = top_level(text)
+        if case["cls"] == "ClickHouseQuery" or "UPDATE " not in t:
+            return None
+        pos = []
+        for name, kws in (("update", ["UPDATE "]), ("joins", [" JOIN "]), ("set", [" SET "]), ("from", [" FROM "]),
+                          ("where", [" WHERE "]), ("limit", [" LIMIT ", " FETCH NEXT "])):
+            ps = [i for k in kws for i in _find_all(t, k)]
+            if ps:
+                pos.append((name, min(ps), max(ps)))
+        for (a, _, amax), (b, bmin, _) in zip(pos, pos[1:]):
+            if amax > bmin:
+                return [a, b]
+        return None
     pos = clause_positions(text)
     for (a, _, amax), (b, bmin, _) in zip(pos, pos[1:]):
         if a == "with" and b == "select":
@@ -1036,6 +1051,7 @@ def gen_cases(rng, tier):
     n = 260 if tier == "quick" else 4000
     out = [gen_case(rng, 6 if tier == "quick" else 8) for _ in range(n)]
     out += gen_alias_family(rng, 70 if tier == "quick" else 700)
+    out += gen_with_family(rng, 50 if tier == "quick" else 500)
     for c in out:
         c["full"] = tier == "thorough"
     # directed pairs: every unordered pair of different kinds at least once, on a two-table SELECT
@@ -1097,6 +1113,39 @@ def gen_alias_family(rng, n):
     return out
 
 
+def gen_with_family(rng, n):
+    """criteria of where/prewhere/join that mention a WITH query which is attached by a with_() call of the same list
+    (or by none), in statements with and without joins: nothing with_() writes may be read by another call"""
+    out = []
+    a, b = ["T", "a", None], ["T", "b", None]
+    for _ in range(n):
+        g = G(rng)
+        w = ["W", rng.choice(WNAMES)]
+        stmt = rng.choice(["select", "select", "select", "update"])
+        pre = [["from", a]] if stmt == "select" else [["update", a]]
+        g.present = [a]
+        calls = [["with", w[1], "1"]] if rng.random() < 0.85 else []
+        kinds = rng.sample(["where", "prewhere", "join", "join_w", "where2", "groupby", "limit"], rng.choice([2, 3, 4]))
+        for k in kinds:
+            if k in ("where", "prewhere"):
+                if stmt == "update" and k == "prewhere":
+                    continue
+                calls.append([k, ["cmp", "eq", [g.col(), a], [g.col(), w]]])
+            elif k == "where2":
+                calls.append(["where", ["cmp", "gt", [g.col(), a], 1]])
+            elif k == "join":
+                calls.append(["join", b, "inner", ["on", ["cmp", "eq", [g.col(), rng.choice([a, w])], [g.col(), b]], None]])
+            elif k == "join_w":
+                calls.append(["join", w, "left", ["on", ["cmp", "eq", [g.col(), a], [g.col(), w]], None]])
+            else:
+                calls.append(g.call(k))
+        calls.append(["select", [["s", g.col()]]] if stmt == "select" else ["set", g.col(), 1])
+        rng.shuffle(calls)
+        out.append({"cls": rng.choice(CLASSES), "prefix": pre, "calls": calls, "stmt": stmt, "malformed": False,
+                    "family": "with"})
+    return out
+
+
 def corpus():
     a, b, v = ["T", "a", None], ["T", "b", None], ["T", "v", None]
     sel = ["select", [["s", "x"]]]
@@ -1148,6 +1197,11 @@ def corpus():
                    ["where", ["cmp", "eq", ["y", ["T", "c", None]], 1]], sel]},
         {"cls": "MySQLQuery", "prefix": [["from", a]],
          "calls": [["for_update", False, True, ["a"]], sel, ["limit", 5]]},
+        # where() on a column of a WITH query, no join: _validate_table must not count the WITH queries present so far
+        {"cls": "Query", "prefix": [["from", a]],
+         "calls": [["with", "w", "1"], ["where", ["cmp", "eq", ["x", a], ["x", ["W", "w"]]]], sel]},
+        {"cls": "ClickHouseQuery", "prefix": [["from", a]],
+         "calls": [["prewhere", ["cmp", "eq", ["x", a], ["x", ["W", "v"]]]], ["with", "v", "1"], sel, ["limit", 3]]},
         # call-time str -> Field resolution must not consult the aliases selected so far (joined statement)
         {"cls": "Query", "prefix": [["from", a]],
          "calls": [["join", b, "inner", ["on", ["cmp", "eq", ["id", a], ["id", b]], None]],
